@@ -115,7 +115,7 @@ pub fn render_flow(n: &Node) -> String {
             if body.is_empty() { p.trim_end().to_string() } else { format!("{p}{body}") }
         }
         Node::Seq { items, tag, anchor, .. } => {
-            let inner: Vec<String> = items.iter().map(render_flow).collect();
+            let inner: Vec<String> = items.iter().map(|i| { let t = render_flow(i); if t.is_empty() { "~".to_string() } else { t } }).collect();
             format!("{}[{}]", props(tag, anchor), inner.join(", "))
         }
         Node::Map { entries, anchor, .. } => {
@@ -240,46 +240,40 @@ pub fn render_doc(n: &Node) -> String {
 /// that name (document order), every anchor mark removed.  `None` if an alias has no earlier anchor
 /// or refers to a node that is still open (recursive).
 pub fn expand(n: &Node) -> Option<Node> {
-    fn go(n: &Node, env: &mut Vec<(String, Node)>) -> Option<Node> {
-        match n {
-            Node::Alias(a) => env.iter().rev().find(|(k, _)| k == a).map(|(_, v)| v.clone()),
-            Node::Scalar { text, sty, tag, anchor } => {
-                let e = Node::Scalar { text: text.clone(), sty: *sty, tag: tag.clone(), anchor: None };
-                if let Some(a) = anchor {
-                    env.push((a.clone(), e.clone()));
-                }
-                Some(e)
-            }
-            Node::Seq { items, flow, tag, anchor } => {
+    // An anchor is defined where its node *starts* (so a nested re-definition is more recent than the
+    // enclosing one) but can only be used once the node is complete.
+    fn go(n: &Node, env: &mut Vec<(String, Option<Node>)>) -> Option<Node> {
+        let slot = n.anchor().map(|a| {
+            env.push((a.clone(), None));
+            env.len() - 1
+        });
+        let e = match n {
+            Node::Alias(a) => return env.iter().rev().find(|(k, _)| k == a).and_then(|(_, v)| v.clone()),
+            Node::Scalar { text, sty, tag, .. } => Node::Scalar { text: text.clone(), sty: *sty, tag: tag.clone(), anchor: None },
+            Node::Seq { items, flow, tag, .. } => {
                 let mut out = Vec::new();
                 for it in items {
                     out.push(go(it, env)?);
                 }
-                let e = Node::Seq { items: out, flow: *flow, tag: tag.clone(), anchor: None };
-                if let Some(a) = anchor {
-                    env.push((a.clone(), e.clone()));
-                }
-                Some(e)
+                Node::Seq { items: out, flow: *flow, tag: tag.clone(), anchor: None }
             }
-            Node::Map { entries, flow, anchor } => {
+            Node::Map { entries, flow, .. } => {
                 let mut out = Vec::new();
                 for (k, v) in entries {
                     let k2 = go(k, env)?;
                     let v2 = go(v, env)?;
                     out.push((k2, v2));
                 }
-                let e = Node::Map { entries: out, flow: *flow, anchor: None };
-                if let Some(a) = anchor {
-                    env.push((a.clone(), e.clone()));
-                }
-                Some(e)
+                Node::Map { entries: out, flow: *flow, anchor: None }
             }
+        };
+        if let Some(i) = slot {
+            env[i].1 = Some(e.clone());
         }
+        Some(e)
     }
     let mut env = Vec::new();
-    let mut r = go(n, &mut env)?;
-    r.strip_anchor();
-    Some(r)
+    go(n, &mut env)
 }
 
 // ------------------------------------------------------------------ generation
